@@ -66,38 +66,45 @@ Theorem c23_eq_char : forall a b, sid_eq a b = true <-> a = b.
 Proof. exact sid_eq_char. Qed.
 Print Assumptions c23_eq_char.
 
-(* What operator!= computes: the CONJUNCTION of the component inequalities. *)
-Theorem c23_neq_char : forall a b, sid_ne a b = true <-> (sid_snd a <> sid_snd b /\ sid_tgt a <> sid_tgt b).
+(* Session identities compare unequal exactly when they are not equal (since the repair ab2c959). *)
+Theorem c23_neq : forall a b, sid_ne a b = negb (sid_eq a b).
+Proof. exact sid_ne_negb_eq. Qed.
+Print Assumptions c23_neq.
+
+Theorem c23_neq_char : forall a b, sid_ne a b = true <-> a <> b.
 Proof. exact sid_ne_char. Qed.
 Print Assumptions c23_neq_char.
 
-(* It is the negation of operator== when the two CompIDs agree or differ together ... *)
-Theorem c23_neq_partial : forall a b,
-  (sid_snd a = sid_snd b <-> sid_tgt a = sid_tgt b) -> sid_ne a b = negb (sid_eq a b).
-Proof. exact sid_ne_partial. Qed.
-Print Assumptions c23_neq_partial.
+(* Before ab2c959 (DESIGN F28) operator!= was the CONJUNCTION of the component inequalities (sid_ne_orig, not part
+   of the tied model any more): A->B != A->C was false while A->B == A->C was false too. *)
+Theorem c23_neq_orig_refuted :
+  (forall a b, sid_ne_orig a b = true <-> (sid_snd a <> sid_snd b /\ sid_tgt a <> sid_tgt b)) /\
+  (exists a b, a <> b /\ sid_eq a b = false /\ sid_ne_orig a b = false /\ sid_ne a b = true).
+Proof. exact (conj sid_ne_orig_char sid_ne_orig_refuted). Qed.
+Print Assumptions c23_neq_orig_refuted.
 
-(* ... and for identities differing in exactly one CompID both operators answer false (DESIGN F28):
-   A->B != A->C is false while A->B == A->C is false too. *)
-Theorem c23_neq_refuted :
-  (exists a b, a <> b /\ sid_eq a b = false /\ sid_ne a b = false) /\
-  (forall a b, (sid_snd a = sid_snd b /\ sid_tgt a <> sid_tgt b) \/ (sid_snd a <> sid_snd b /\ sid_tgt a = sid_tgt b) ->
-               sid_eq a b = false /\ sid_ne a b = false).
-Proof. exact (conj sid_ne_refuted sid_one_differs). Qed.
-Print Assumptions c23_neq_refuted.
-
-(* What the initiator does detect: under enforcement a response whose TargetCompID AND SenderCompID are both
-   wrong is a mismatch (stopped, terminated, process returns false) ... *)
-Theorem c23_initiator_partial : forall sc decode fl now raw s rest q m,
+(* The initiator clause at full strength: under enforcement a Logon response whose CompIDs do not mirror the
+   initiator's identity -- TargetCompID or SenderCompID wrong, either one suffices -- is a mismatch: process
+   returns false, nothing is sent, the session is stopped and terminated (for every sequence number). *)
+Theorem c23_initiator : forall sc decode fl now raw s rest q m,
   find_after pat_34 raw = Some rest -> fast_atoi_u rest SOH 0 = Some q -> decode raw = DecOk m ->
   m_type m = mt_logon -> s_role s = Initiator -> s_state s <> st_continuous ->
-  pr_ec (s_par s) = true -> sid_ne (own_sid s) (logon_sid m) = true ->
+  pr_ec (s_par s) = true -> (lg_tci m <> s_snd s \/ lg_sci m <> s_tgt s) ->
   exists s', process sc decode fl now raw s = (false, s', []) /\
              s_state s' = st_session_terminated /\ is_shutdown s' = true.
-Proof. exact initiator_mismatch. Qed.
-Print Assumptions c23_initiator_partial.
+Proof. exact initiator_not_mirrored. Qed.
+Print Assumptions c23_initiator.
 
-(* ... and in EVERY other case a response with the expected number completes the logon. *)
+(* Hence, under enforcement, the logon completes ONLY for a mirrored response ... *)
+Theorem c23_initiator_only : forall sc decode fl now raw s rest q m b s' e,
+  find_after pat_34 raw = Some rest -> fast_atoi_u rest SOH 0 = Some q -> decode raw = DecOk m ->
+  m_type m = mt_logon -> s_role s = Initiator -> s_state s <> st_continuous -> pr_ec (s_par s) = true ->
+  process sc decode fl now raw s = (b, s', e) -> s_state s' = st_continuous ->
+  lg_tci m = s_snd s /\ lg_sci m = s_tgt s.
+Proof. exact initiator_only. Qed.
+Print Assumptions c23_initiator_only.
+
+(* ... and a mirrored response (or any response when enforcement is off) with the expected number does complete it. *)
 Theorem c23_initiator_accepts : forall sc decode fl now raw s rest q m,
   find_after pat_34 raw = Some rest -> fast_atoi_u rest SOH 0 = Some q -> decode raw = DecOk m ->
   m_type m = mt_logon -> s_role s = Initiator -> s_state s <> st_continuous ->
@@ -109,19 +116,22 @@ Theorem c23_initiator_accepts : forall sc decode fl now raw s rest q m,
 Proof. exact initiator_accepts. Qed.
 Print Assumptions c23_initiator_accepts.
 
-(* Therefore a response with exactly one wrong CompID is accepted although enforcement is on.  On whole
-   histories with the oracle (model of "START I none sid=CLI:SRV | IN <Logon 49=.. 56=..>"): the mirrored
-   response and the response with both CompIDs wrong satisfy c23_hist_ok, the response SRV->XXX does not. *)
-Theorem c23_initiator_refuted :
+(* On whole histories with the oracle (model of "START I none sid=CLI:SRV | IN <Logon 49=.. 56=..>"): the
+   mirrored response completes the logon; the response SRV->XXX (exactly one wrong CompID: the input that F28 let
+   through) and the response XXX->XXX end in session_terminated; c23_hist_ok holds for all three. *)
+Theorem c23_initiator_witness :
   schema_ok demo_schema = true /\
-  (let ops := demo_initiator_ops id_SRV id_XXX in
-   c23_hist_ok ops (run_history demo_schema ops) = false /\
+  (let ops := demo_initiator_ops id_SRV id_CLI in
+   c23_hist_ok ops (run_history demo_schema ops) = true /\
    map (fun st => match st_snap st with Some sn => sn_state sn | None => 99 end) (run_history demo_schema ops) = [5; 1]) /\
-  (let ops := demo_initiator_ops id_SRV id_CLI in c23_hist_ok ops (run_history demo_schema ops) = true) /\
-  (let ops := demo_initiator_ops id_XXX id_XXX in c23_hist_ok ops (run_history demo_schema ops) = true) /\
-  sid_ne (own_sid demo_init_sess) (logon_sid (demo_logon id_SRV id_XXX 1)) && pr_ec (s_par demo_init_sess) = false.
+  (let ops := demo_initiator_ops id_SRV id_XXX in
+   c23_hist_ok ops (run_history demo_schema ops) = true /\
+   map (fun st => match st_snap st with Some sn => sn_state sn | None => 99 end) (run_history demo_schema ops) = [5; 2]) /\
+  (let ops := demo_initiator_ops id_XXX id_XXX in
+   c23_hist_ok ops (run_history demo_schema ops) = true /\
+   map (fun st => match st_snap st with Some sn => sn_state sn | None => 99 end) (run_history demo_schema ops) = [5; 2]).
 Proof. vm_compute. repeat split. Qed.
-Print Assumptions c23_initiator_refuted.
+Print Assumptions c23_initiator_witness.
 
 (* The hypotheses are met by non-trivial inputs: the demo schema is admissible; an acceptor SRV (enforcement on,
    client list [CLI]) and the Logon CLI->SRV satisfy both tests, the Logon CLI->XXX fails the first, XXX->SRV the
